@@ -174,6 +174,38 @@ def execOp (line : String) : String :=
     | "cdst" => withPkts fun ps => dstLine (cdst ps)
     | "rt" => withPkts rtLine
     | "reenc" => withHex reencLine
+    | "rto" => withPkt fun p =>
+        match p.enc with
+        | .ok b =>
+          match kindOfName kind with
+          | some k => match decKind k b with
+            | .ok q => let t := join (wBody q); if t.isEmpty then "ok" else "ok " ++ t
+            | .err => "deerr"
+            | .panic => "panic"
+            | .diverge => "diverge"
+          | none => bad
+        | .err => "err"
+        | .panic => "panic"
+        | .diverge => "diverge"
+    | "decv" => match args with
+        | h :: _ => match unhex h with
+          | some b => match kindOfName kind with
+            | some k => outStr (decKind k b) (join ∘ wBody)
+            | none => bad
+          | none => bad
+        | _ => "bad-op decv"
+    | "concat" => match args with
+        | [ha, hb] => match unhex ha, unhex hb with
+          | some a, some b =>
+            let one (x : Bytes) : Option String := match udec x with
+              | .ok ps => some (packetsStr ps)
+              | .err => some "err"
+              | _ => none
+            match one a, one b, one (a ++ b) with
+            | some x, some y, some z => s!"ok {x} ; {y} ; {z}"
+            | _, _, _ => "panic"
+          | _, _ => bad
+        | _ => "bad-op concat"
     | "framed" => withPkt fun p =>
         match p.enc with
         | .ok b =>
